@@ -638,9 +638,21 @@ pub fn run(ctx: &Ctx) -> i32 {
         nb.push(n);
         nb.push(n + ab::DAY_NS);
     }
+    // wrap-back values: arguments whose quotient by a unit (ns, us, ms, s) is a multiple of 2^32 plus a
+    // value inside the day, so that a narrowing cast somewhere in the constructor would land in range
+    for unit in [1u128, 1_000, 1_000_000, 1_000_000_000] {
+        for j in 1u128..=4 {
+            let base = (1u128 << 32) * j * unit;
+            for add in [0u128, 1, 999_999_999, 86_399 * 1_000_000_000, ab::DAY_NS as u128 - 1, 43_200 * unit] {
+                if base + add <= u64::MAX as u128 {
+                    nb.push((base + add) as u64);
+                }
+            }
+        }
+    }
     nb.sort();
     nb.dedup();
-    rep.sweep("Time::from_nanos:u64-boundaries", nb.len() as u64, "powers of two, day boundaries", |i, acc| case_time_from_nanos(nb[i as usize], acc));
+    rep.sweep("Time::from_nanos:u64-boundaries", nb.len() as u64, "powers of two, day boundaries, wrap-back values (2^32 x j x unit + in-day value)", |i, acc| case_time_from_nanos(nb[i as usize], acc));
     let mut ohs: Vec<i32> = (-26..=26).collect();
     ohs.extend([i32::MIN, i32::MIN + 1, i32::MAX - 1, i32::MAX]);
     let (oa, ob, oc) = (ohs.len() as u64, mx.len() as u64, sx.len() as u64);
